@@ -32,7 +32,8 @@ func init() {
 			"with allow_globs_in_identity_templates off, identity templates in validateNames/validateURISAN are populated only after * was blocked; " +
 			"the update and patch issuer endpoints store for each leaf_not_after_behavior name the enum value certutil's name table gives it, and every other writer of issuerEntry.LeafNotAfterBehavior stores err; " +
 			"a match flag tested inside a loop of a validator (validateOtherSANs, validateNames, validateUserId, validateSerialNumber, validateURISAN) never carries the value of the previous iteration: it is assigned afresh inside the innermost loop over the requested values; " +
-			"URI SANs enter the bundle element by element behind their own validateURISAN verdict — a whole slice is appended only after a loop in generateCreationBundle validated every element of that very slice (an any-match test over the slice is a violation).",
+			"URI SANs enter the bundle element by element behind their own validateURISAN verdict — a whole slice is appended only after a loop in generateCreationBundle validated every element of that very slice (an any-match test over the slice is a violation); " +
+			"every field of the caller's role that buildSignVerbatimRole copies (ttl, max_ttl, generate_lease, not_before_duration, no_store, issuer, basic_constraints_valid_for_non_ca) is stored into the same field of the synthetic role and the copy is reachable whatever the tests of the role's other fields decide.",
 		NotDecided: "the string/suffix/glob semantics of validateNames over DNS labels (values); that the parsed certificate satisfies all constraints simultaneously; serial uniqueness (probabilistic); arithmetic of time comparisons; the policy expressed by a CEL role program (CEL roles replace, not refine, classic roles); crypto/x509's own encoding.",
 		Run:        runC15,
 	})
